@@ -15,6 +15,7 @@
 package server
 
 import (
+	"fmt"
 	"sort"
 	"strconv"
 	"time"
@@ -115,6 +116,9 @@ func (server *Server) Rename(conn *redis.Conn, key string, newkey string, opt re
 	db, err := server.GetDatabase(conn.Database())
 	if err != nil {
 		return nil, err
+	}
+	if !db.HasRecord(key) {
+		return nil, fmt.Errorf("%w: %s", ErrNotFound, key)
 	}
 	if opt.NX {
 		if _, ok := db.GetRecord(newkey); ok {
